@@ -35,6 +35,8 @@ const (
 	tracebackLen  = 32
 	tracebackStop = "pgregory.net/rapid.checkOnce"
 	runtimePrefix = "runtime."
+
+	nonFatalTraceback = "    <test case failed without stopping>\n"
 )
 
 var (
@@ -401,11 +403,10 @@ func checkOnce(t *T, prop func(*T)) (err *testError) {
 		verifEmit("once.begin")
 		defer func() { verifEmit("once.end", "err", verifErr(err)) }()
 	}
-	defer func() { err = panicToError(recover(), 3) }()
+	defer func() { err = t.takeFailure(panicToError(recover(), 3)) }()
 
 	defer t.cleanup()
 	prop(t)
-	t.failOnError()
 
 	return nil
 }
@@ -827,5 +828,34 @@ func (t *T) failOnError() {
 
 	if t.failed != "" {
 		panic(t.failed)
+	}
+}
+
+// takeFailure is called when an invocation of the property function is over
+// (after its cleanups): a non-fatal failure that did not stop the invocation
+// by itself still falsifies it, and the flag is cleared so that t can be reused.
+func (t *T) takeFailure(err *testError) *testError {
+	t.mu.Lock()
+	failed := t.failed
+	t.failed = ""
+	t.mu.Unlock()
+
+	if failed == "" || (err != nil && !err.isInvalidData()) {
+		return err
+	}
+
+	return &testError{data: failed, traceback: nonFatalTraceback}
+}
+
+// adoptFailure moves a non-fatal failure recorded on inner (the *T given to
+// a Custom generator function) to t.
+func (t *T) adoptFailure(inner *T) {
+	inner.mu.Lock()
+	failed := inner.failed
+	inner.failed = ""
+	inner.mu.Unlock()
+
+	if failed != "" {
+		t.fail(false, string(failed))
 	}
 }
